@@ -75,6 +75,20 @@ func main() {
 		n = int(v)
 	}
 	var items []string
+	// the machine-checked witnesses of P_LedgerC04.v (and one more known trigger) replayed on the real application
+	if prop == "C04" {
+		for i, sc := range scripted() {
+			h := &History{Seed: seed*1_000_003 + 900_000 + int64(i), Spec: sc.spec, Avoid: false}
+			items = append(items, execHistory(c, h, lib.NewRand(h.Seed), sc.ops, rep))
+			rep.Count("scripted:" + sc.name)
+			if os.Getenv("VERIF_DEBUG") != "" {
+				fmt.Println("== scripted:", sc.name)
+				for _, st := range h.Steps {
+					fmt.Printf("   %-70s ok=%v %s\n", st.Op.Coq(), st.OK, st.Err)
+				}
+			}
+		}
+	}
 	for i := 0; i < n; i++ {
 		hseed := seed*1_000_003 + int64(i)
 		avoid := i%3 == 0 // a third of the histories avoid the triggers of the known findings
@@ -88,6 +102,39 @@ func main() {
 		lib.WriteCases("Cases_"+prop+".v", []string{"model.M_Ledger", "model.M_LedgerCorr"}, "lcase", items, "ledger_mismatch")
 	}
 	rep.Write()
+}
+
+type script struct {
+	name string
+	spec Spec
+	ops  []Op
+}
+
+func scripted() []script {
+	sp := Spec{Chains: []string{"eth", "bsc", "tron"}, ModChains: []string{"eth", "bsc"}, ExtChains: []string{"eth"}}
+	return []script{
+		{"withdrawable-refuted (older-rule refund parks the bridge denom)", sp, []Op{
+			{K: "SendToFx", C: 1, T: 1, A: 100, X: 1000},
+			{K: "BridgeCallMsg", C: 1, A: 100, B: 100, Toks: [][2]int64{{1, 400}}},
+			{K: "BridgeCallResult", C: 1, ID: 1, Flag: false},
+			{K: "SendToExternal", C: 1, T: 1, A: 100, X: 900, Y: 1},
+		}},
+		{"refund-refused (externally-owned token, failed result)", sp, []Op{
+			{K: "ObserveJump", C: 1, X: 0},
+			{K: "ConvertERC20", T: 2, A: 100, B: 100, X: 1000},
+			{K: "BridgeCallMsg", C: 1, A: 100, B: 100, Toks: [][2]int64{{2, 300}}},
+			{K: "BridgeCallResult", C: 1, ID: 1, Flag: false},
+		}},
+		{"refund-refused (externally-owned token, time-out wedges the chain's claims)", sp, []Op{
+			{K: "ObserveJump", C: 1, X: 0},
+			{K: "PreBridgeCall", C: 1, A: 100, B: 101, Toks: [][2]int64{{2, 250}}},
+			{K: "ObserveJump", C: 1, X: 2},
+			{K: "SendToFx", C: 1, T: 0, A: 101, X: 77},
+		}},
+		{"inbound bridge call fails: refund drawn from the refund address", sp, []Op{
+			{K: "BridgeCallIn", C: 1, A: cBad, B: 100, To: cBad, Toks: [][2]int64{{0, 500}}, Flag: false},
+		}},
+	}
 }
 
 func firstOps(h *History, n int) []string {
